@@ -9,11 +9,11 @@ CHECKS=${@:-$P}
 export GOFLAGS=-mod=mod GOPROXY=off GOSUMDB=off GOTOOLCHAIN=local
 S=/tmp/seed/$P; WT=$S/wt; M=$S/m$K; OUT=/verif/seeded/$P-m$K
 mkdir -p $OUT
-git -C $WT checkout -q -- . ; git -C $WT clean -fdq
+git -C $WT reset -q --hard; git -C $WT clean -fdq
 git -C $WT checkout -q --detach $(git -C /repo rev-parse HEAD)
 echo "== demo on clean tree"; (cd $M/demo && sed -i "s|=> .*|=> $WT|" go.mod && cp $WT/go.sum . && go run . > $OUT/demo_clean.txt 2>&1); RC_CLEAN=$?
 tail -2 $OUT/demo_clean.txt
-if ! git -C $WT apply --check $M/patch.diff 2>/dev/null; then echo "PATCH DOES NOT APPLY to current HEAD"; git -C $WT apply --3way $M/patch.diff || { echo APPLY-FAILED; exit 3; }; else git -C $WT apply $M/patch.diff; fi
+if ! git -C $WT apply --check $M/patch.diff 2>/dev/null; then echo "PATCH DOES NOT APPLY to current HEAD"; { echo APPLY-FAILED; exit 3; }; else git -C $WT apply $M/patch.diff; fi
 (cd $WT && go build ./... > $OUT/build.txt 2>&1); RC_BUILD=$?
 (cd $WT && go test -vet=off -count=1 ./... > $OUT/tests.txt 2>&1); RC_TEST=$?
 NFAIL=$(grep -c "^FAIL\|^--- FAIL" $OUT/tests.txt)
@@ -29,7 +29,7 @@ for C in $CHECKS; do
   [ -n "$RP" ] && [ -f "$RP" ] && cp "$RP" $OUT/replay_$C.json
   RES="$RES{\"check\":\"$C\",\"rc\":$RC,\"verdict\":\"$(echo $V | sed 's/"/\\"/g')\"},"
 done
-git -C $WT checkout -q -- . ; git -C $WT clean -fdq
+git -C $WT reset -q --hard; git -C $WT clean -fdq
 cp $M/patch.diff $OUT/patch.diff; rm -rf $OUT/demo; cp -r $M/demo $OUT/demo; [ -f $M/README.md ] && cp $M/README.md $OUT/README.md
 cat > $OUT/meta.json <<EOF
 {"property":"$P","seed_id":"$P-m$K","repo_head":"$(git -C /repo rev-parse --short HEAD)",
